@@ -54,7 +54,7 @@ GS_ALL = one(gs.rule_gs_modstate, gs.rule_gs_classattr, gs.rule_gs_defaults, gs.
 LK_ALL = both(lk.rule_lk_taint, lk.rule_lk_map, lk.rule_lk_anchor, lk.rule_lk_part, lk.rule_lk_cache) + one(lk.rule_rx_jsesc)
 RS_ALL = one(rs.rule_rs_close, rs.rule_rs_epipe, rs.rule_rs_decerr)
 FL_ALL = both(rs.rule_fl_flags, rs.rule_fl_fields, rs.rule_fl_none_complete, rs.rule_fl_collect)
-IF_ALL = one(ifc.rule_if_layer, ifc.rule_if_conf, ifc.rule_if_entry, ifc.rule_if_args, ifc.rule_if_joinopts, ifc.rule_if_df, ifc.rule_cl_stdout, ifc.rule_cl_exit, ifc.rule_cl_mode, ifc.rule_cl_presence) + both(ifc.rule_if_regfresh, hd.rule_hd_emit, ifc.rule_if_varmap)
+IF_ALL = one(ifc.rule_if_layer, ifc.rule_if_conf, ifc.rule_if_entry, ifc.rule_if_args, ifc.rule_if_joinopts, ifc.rule_if_df, ifc.rule_cl_stdout, ifc.rule_cl_exit, ifc.rule_cl_mode, ifc.rule_cl_presence, ifc.rule_cl_options) + both(ifc.rule_if_regfresh, hd.rule_hd_emit, ifc.rule_if_varmap)
 
 
 def only(rules, port):
@@ -78,7 +78,7 @@ PROPS = {
     'C02': {
         'rules': WR_ALL + both(conf.rule_pa_conf, conf.rule_wr_order, conf.rule_pa_excl) + both(sk.rule_sk_stop, sk.rule_sk_relay, sk.rule_sk_unnest_pos, pa.rule_pa_top, pa.rule_pa_zero, pa.rule_pa_asc),
         'thorough_rules': both(sk.rule_sk_emit, conf.rule_rs_proto) + one(xp.rule_xp_verdicts, xp.rule_xp_roles),
-        'explanation': 'Decides the composition sort -> dedup -> truncate on the exhaustive configuration table of the shallow parser (1024 keyword configurations): wrapping order Top, Uniq|UniqCount, Sorted and presence iff keyword; per writer: stable ascending sort on the key only with DESC = reversal of that result, first-occurrence dedup on the immutable record image, insertion-ordered multiplicity map with count prefix, TOP refusing iff NW >= N and counting forwarded records; termination: every write() returns a boolean, every downstream verdict is propagated, a false verdict sets stop_flag, the loop tests it and inner loops break. The sort dominates the emission (it cannot be skipped by a test that does not use the ORDER BY comparator) and every arrival is buffered exactly once.',
+        'explanation': 'Decides the composition sort -> dedup -> truncate on the exhaustive configuration table of the shallow parser (1024 keyword configurations): wrapping order Top, Uniq|UniqCount, Sorted and presence iff keyword; per writer: stable ascending sort on the key only with DESC = reversal of that result, first-occurrence dedup on the immutable record image, insertion-ordered multiplicity map with count prefix, TOP refusing iff NW >= N and counting forwarded records; termination: every write() returns a boolean, every downstream verdict is propagated, a false verdict sets stop_flag, the loop tests it and inner loops break. The sort dominates the emission (it cannot be skipped by a test that does not use the ORDER BY comparator) and every arrival is buffered exactly once. select_simple relays the writer\'s verdict; comparators do not use locale collation.',
         'not_decided': 'that user sort keys are mutually comparable; stability of sorted()/Array.sort (trusted language semantics).',
     },
     'C03': {
@@ -144,19 +144,19 @@ PROPS = {
     'C13': {
         'rules': IF_ALL + one(ow.rule_ow_pandas) + py(rd.rule_rd_comment),
         'thorough_rules': both(conf.rule_rs_proto) + py(cs.rule_cs_dispatch),
-        'explanation': 'Decides that the engine cannot tell adapters apart and the CLI channel discipline: the engine imports no adapter and never inspects an adapter type; every adapter implements the interface with the engine\'s arity and hands the engine lists; every entry point delegates the unchanged query to rbql_engine.query; on the non-interactive path nothing but --version prints to stdout, errors are `Error [type]: msg` and warnings `Warning: msg` on stderr, every failure ends in sys.exit(1), success falls off main; error type map and out-format/default-policy tables. An option to which the CLI assigns a falsy legal value is tested by presence only; every registry returns an iterator constructed by that call; the runner maps any exception to show_error + False and success to True (path summaries, helper followed); the CSV header is emitted on every path. Every iterator\'s get_variables_map registers positional variables always and name-based ones whenever column names are present and on nothing else (an empty table, a record count), so a query binds the same way through every front end; comment-prefix handling of the CSV reader (empty prefix = none).',
+        'explanation': 'Decides that the engine cannot tell adapters apart and the CLI channel discipline: the engine imports no adapter and never inspects an adapter type; every adapter implements the interface with the engine\'s arity and hands the engine lists; every entry point delegates the unchanged query to rbql_engine.query; on the non-interactive path nothing but --version prints to stdout, errors are `Error [type]: msg` and warnings `Warning: msg` on stderr, every failure ends in sys.exit(1), success falls off main; error type map and out-format/default-policy tables. An option to which the CLI assigns a falsy legal value is tested by presence only; every registry returns an iterator constructed by that call; the runner maps any exception to show_error + False and success to True (path summaries, helper followed); the CSV header is emitted on every path. Every iterator\'s get_variables_map registers positional variables always and name-based ones whenever column names are present and on nothing else (an empty table, a record count), so a query binds the same way through every front end; comment-prefix handling of the CSV reader (empty prefix = none). Every args.<name> read on the path from an entry point is declared by that entry point\'s parser (calls followed with constant arguments); option-or-default selections take the option when present; a runner reports success only after running the query; every result frame of the pandas writer carries the header.',
         'not_decided': 'equality of results across back-ends (depends on pandas/sqlite value conversion).',
     },
     'C14': {
         'rules': both(sk.rule_sk_err, sk.rule_sk_nr, conf.rule_pa_hdrcall, conf.rule_pa_excl, hd.rule_va_index, rd.rule_rd_bom, agfold.rule_ag_fold) + one(agfold.rule_ag_parse) + FL_ALL + one(rs.rule_rs_decerr, ifc.rule_cl_exit) + js(rd.rule_rd_decode) + both(rd.rule_rd_comment),
         'thorough_rules': both(sk.rule_sk_eof, rd.rule_rd_bom, cs.rule_cs_accept, ag.rule_ag_const),
-        'explanation': 'Decides error/warning structure: one try covers every user fragment in every generated program; handlers never fall through (first offending record ends the query); bad field -> runtime error with index+1 and NR, bad key with the key and NR, parsing errors re-raised unchanged, anything else -> runtime error with NR; text-detectable conflicts raise the parsing class before the header is handed over and nothing can raise after it; decode faults map to the IO class; each warning flag has one neutral initialisation, set-sites only under its condition and one guarding read in get_warnings; field-count warning records the first record per count and cites the two smallest. Non-numeric aggregate arguments raise at their record: parse_number never returns an untested value. Comment lines never reach the record counter; JS bulk decoding through a streaming decoder must be flushed in the same function.',
+        'explanation': 'Decides error/warning structure: one try covers every user fragment in every generated program; handlers never fall through (first offending record ends the query); bad field -> runtime error with index+1 and NR, bad key with the key and NR, parsing errors re-raised unchanged, anything else -> runtime error with NR; text-detectable conflicts raise the parsing class before the header is handed over and nothing can raise after it; decode faults map to the IO class; each warning flag has one neutral initialisation, set-sites only under its condition and one guarding read in get_warnings; field-count warning records the first record per count and cites the two smallest. Non-numeric aggregate arguments raise at their record: parse_number never returns an untested value. Comment lines never reach the record counter; JS bulk decoding through a streaming decoder must be flushed in the same function. query() collects the warnings of iterator, join table and writer on every normal path (the writer\'s after finish); the next input record is fetched outside the per-record try.',
         'not_decided': '"iff the condition occurred" for conditions defined over string contents (e.g. exactness of the delimiter-count heuristic).',
     },
     'C15': {
         'rules': RS_ALL + py(wr.rule_wr_ret, wr.rule_wr_prop, wr.rule_wr_fin, sk.rule_sk_stop, sk.rule_sk_relay, sk.rule_sk_unnest_pos, sk.rule_sk_err, conf.rule_rs_proto, conf.rule_pa_hdrcall),
         'thorough_rules': py(rs.rule_fl_flags, rd.rule_rd_decode) + js(sk.rule_sk_err),
-        'explanation': 'Decides fault handling structure (Python): the broken-pipe handler covers every stream write, sets the flag and returns False, finish() is a no-op afterwards; the False propagates through every chain writer to stop_flag and the loops; every stream.read is reachable only through the try that maps UnicodeDecodeError to the IO error; every open() in the CSV/sqlite front-ends is closed on all paths (with / flag-coupled try-finally / object closed in the creator\'s finally); protocol: parser calls only set_header (once, unwrapped, first), the run only write, query() calls finish exactly once after a successful run, not in a finally. In the broken-pipe handlers a re-raise is possible only under a test that is false when the caught class is BrokenPipeError itself; no path that leaves a chain writer\'s finish() exceptionally has finished the sink. File handles: opened into a local and flagged at once inside try/finally, or stored on the object before anything that can raise runs.',
+        'explanation': 'Decides fault handling structure (Python): the broken-pipe handler covers every stream write, sets the flag and returns False, finish() is a no-op afterwards; the False propagates through every chain writer to stop_flag and the loops; every stream.read is reachable only through the try that maps UnicodeDecodeError to the IO error; every open() in the CSV/sqlite front-ends is closed on all paths (with / flag-coupled try-finally / object closed in the creator\'s finally); protocol: parser calls only set_header (once, unwrapped, first), the run only write, query() calls finish exactly once after a successful run, not in a finally. In the broken-pipe handlers a re-raise is possible only under a test that is false when the caught class is BrokenPipeError itself; no path that leaves a chain writer\'s finish() exceptionally has finished the sink. File handles: opened into a local and flagged at once inside try/finally, or stored on the object before anything that can raise runs. select_simple returns false exactly when the writer refused and writes once per call.',
         'not_decided': 'OS-level behaviour of pipes and the text wrapper\'s flushing.',
     },
     'C16': {
